@@ -182,13 +182,23 @@ class TextContent(BaseModel):
 
         text = str(converted_text)
 
+        # Only 7-bit ASCII is written as is: the file is stored as UTF-8 but declared
+        # \\ansi, so any raw byte >= 0x80 would be decoded in the ANSI code page.
+        # Everything else is a \\u escape within RTF's signed 16-bit range, characters
+        # beyond the Basic Multilingual Plane as a UTF-16 surrogate pair.
         converted_text = ""
         for char in text:
             unicode_int = ord(char)
-            if unicode_int <= 255 and unicode_int != 177:
+            if unicode_int < 128:
                 converted_text += char
+                continue
+            if unicode_int > 0xFFFF:
+                offset = unicode_int - 0x10000
+                code_units = [0xD800 + (offset >> 10), 0xDC00 + (offset & 0x3FF)]
             else:
-                rtf_value = unicode_int - (0 if unicode_int < 32768 else 65536)
+                code_units = [unicode_int]
+            for code_unit in code_units:
+                rtf_value = code_unit - (0 if code_unit < 32768 else 65536)
                 converted_text += f"\\uc1\\u{rtf_value}*"
 
         text = converted_text
